@@ -69,6 +69,64 @@ def iterator_driven(env, body, head):
     return (None, "no dominating Iterator::next of a finite iterator", None)
 
 
+def iteration_count(env, body, head):
+    """the value N such that the loop body runs at most N times and leaves early only through an explicit exit:
+    a range 0..N, a counter going from N down to 0 in steps of one, or a counter going from 0 up to N in steps of one"""
+    ok, why, end_sv = iterator_driven(env, body, head)
+    it = env.ctx.interp(body.key)
+    blocks = body.loops[head]
+    if ok and end_sv is not None:
+        return end_sv, "range up to %s" % stable(end_sv)
+    Sh = it.entry_states.get(head)
+    if Sh is None:
+        return None, "loop head unreachable"
+    backs = set(back_edge_sources(body, head))
+    for loc, phi in [(loc, v) for loc, v in Sh.mem.items() if isinstance(v, tuple) and v[0] == "phi" and v[1] == head and loc[0][0] == "L" and not loc[1]]:
+        steps = set()
+        for s_ in backs:
+            Se = it.edge_out.get((s_, head))
+            if Se is None:
+                continue
+            base, off = Se.norm(Se.read(loc))
+            steps.add(off if base == phi else None)
+        if steps not in ({1}, {-1}):
+            continue
+        inits = []
+        for q in body.preds[head]:
+            if q in backs or it.edge_out.get((q, head)) is None:
+                continue
+            inits.append(it.edge_out[(q, head)].read(loc))
+        if len(set(inits)) != 1:
+            continue
+        init = inits[0]
+        # the guard that leaves the loop
+        for bi in sorted(blocks):
+            t = body.blocks[bi]["term"]
+            if t["k"] != "switch" or not [x for x in body.succs[bi] if x not in blocks]:
+                continue
+            S = it.exit_state(bi)
+            if S is None:
+                continue
+            it.cur = (bi, 0)
+            c = it.eval_op(S, t["discr"])
+            neg = False
+            while isinstance(c, tuple) and c[0] == "not":
+                c, neg = c[1], not neg
+            if not (isinstance(c, tuple) and c[0] == "cmp"):
+                continue
+            op, a, b = c[1], c[2], c[3]
+            if strip_casts(b) == phi and strip_casts(a) != phi:
+                op, a, b = {"Lt": "Gt", "Le": "Ge", "Gt": "Lt", "Ge": "Le", "Eq": "Eq", "Ne": "Ne"}[op], b, a
+            if strip_casts(a) != phi:
+                continue
+            if steps == {-1} and const_val(b) in (0, 1):
+                # counts down from init; continues while x > 0 / x >= 1 / x != 0
+                return init, "counter from %s down to 0" % stable(init)
+            if steps == {1} and const_val(init) == 0 and not contains(b, lambda z: isinstance(z, tuple) and z[0] == "phi" and z[1] == head):
+                return b, "counter from 0 up to %s" % stable(b)
+    return None, "no counted iteration found"
+
+
 def held_length_only(sv, depth=0):
     """term built only from constants and lengths of containers already held in memory"""
     if depth > 6 or not isinstance(sv, tuple):
